@@ -509,6 +509,7 @@ def run(chk, replay=None):
     kernel_tie_leg(chk, "lef_parse3")     # LefParser::parse_layer_geometries / parse_via_shape / parse_via_layer_geometries / parse_obstructions / parse_port / parse_property_definitions = Lef/LefParse.v
     kernel_tie_leg(chk, "lef_parse_lib")  # LefParser::parse_pin, the whole function = parse_pin / pin_loop of Lef/LefParse.v
     kernel_tie_leg(chk, "lef_parse_macro")  # LefParser::parse_macro, the whole function = parse_macro / macro_loop of Lef/LefParse.v
+    kernel_tie_leg(chk, "lef_parse_via")    # LefParser::parse_via, the whole function = parse_via / gen_via_loop / fixed_via_layers_loop of Lef/LefParse.v
     chk.assumptions += [
         "rust_decimal's Decimal::from_str / PartialEq are an external library: specified in Lef/LefDec.v from its source (dec_of_bytes, dec_eq) and validated by the correspondence",
         "derive_builder `build()` is modelled by its documented behaviour (last setter wins, a missing required field is an error)",
